@@ -77,7 +77,7 @@ _REG = {}
 
 
 def _build():
-    from .oracles import c01, c02, c03, c09, c10, c13
+    from .oracles import c01, c02, c03, c07, c09, c10, c13
 
     _REG["C02"] = seq_spec(
         "C02",
@@ -189,6 +189,24 @@ def _build():
         world_fn=c13_world,
         actors_fn=lambda ctx, rng: [(c13.TypestateActor(45), 1.0)],
         assumptions=["refusal reasons the statement does not mention are DONT_CARE", "MUST_ACCEPT is only claimed for calls with safely-inside arguments and >=3000 ns of room below max_sequence_duration"],
+    )
+
+    _REG["C07"] = seq_spec(
+        "C07",
+        "exploration",
+        "seeded SEQ-SIM runs with phase-heavy programs (explicit shifts on arbitrary subsets/bases, post-phase-shifts, retargets, several channels per basis, EOM drift corrections, restarts); a stateful exact accumulator (RefPhase) predicts every reference, every scheduled pulse phase and every shift time; non-trivial = >=3 shifts and >=1 pulse scheduled after a non-zero reference; distinct = distinct concrete op traces",
+        A.make_profile(
+            chan_ops={"add": 10, "delay": 1.5, "target": 3, "phase_shift": 5, "align": 1, "enable_eom": 2.5},
+            eom_ops={"add_eom_pulse": 8, "delay": 2, "modify": 2, "disable": 2, "phase_shift": 2, "align": 0.5},
+            w_fault=0.3,
+            fault_kinds={"bad": 2, "restart": 2, "cache": 0.5},
+            w_observer=0.2,
+            measure_p=0.03,
+        ),
+        lambda: [c07.C07()],
+        nontrivial_fn=c07.nontrivial,
+        assumptions=["EOM drift-correction intervals are taken from observed slot times (their endpoints are implementation-defined); sign, rate (-detuning_off) and the 1e-3 factor are checked", "float comparisons modulo 2pi with 1e-9 tolerance"],
+        expected_probes=["explicit_shift", "post_phase_shift", "pulse_after_shift", "barrier_delayed_pulse", "drift_corrected_pulse", "drift_corrected_enable", "drift_corrected_disable", "drift_corrected_modify"],
     )
 
 
